@@ -19,7 +19,44 @@ class Boom(Exception):
     pass
 
 
+def exception_zoo():
+    """One instance factory per exception class picotool defines (found by introspection of every pico8 module) plus the
+    built-in ones an encoder can raise: the protocol must not depend on the class of the failure."""
+    import importlib
+    import pkgutil
+    import pico8
+    classes = {}
+    for m in pkgutil.walk_packages(pico8.__path__, 'pico8.'):
+        if m.name.endswith('_test') or '.test' in m.name:
+            continue
+        try:
+            mod = importlib.import_module(m.name)
+        except Exception:
+            continue
+        for nm, obj in vars(mod).items():
+            if isinstance(obj, type) and issubclass(obj, BaseException) and obj.__module__.startswith('pico8'):
+                classes['%s.%s' % (obj.__module__, obj.__name__)] = obj
+    for c in (Boom, OSError, ValueError, KeyError, IndexError, TypeError, AssertionError, UnicodeEncodeError, RuntimeError, MemoryError,
+              StopIteration, KeyboardInterrupt, SystemExit, GeneratorExit, BaseException):
+        classes[c.__name__] = c
+    zoo = []
+    for nm in sorted(classes):
+        c = classes[nm]
+        inst = None
+        for args in ((), ('injected',), ('injected', 1, 1), ('injected', None), ('ascii', 'x', 0, 1, 'injected'), ('injected', 1), (1, 2, 3, 4)):
+            try:
+                inst = c(*args)
+                break
+            except Exception:
+                continue
+        if inst is not None:
+            zoo.append((nm, c, args))
+    return zoo
+
+
 class FaultyStream(io.BytesIO):
+    exc = None          # (class, args) of the injected failure; default Boom
+
     def __init__(self, fail_at, log):
         super().__init__()
         self.fail_at = fail_at
@@ -29,6 +66,8 @@ class FaultyStream(io.BytesIO):
     def write(self, b):
         if self.fail_at is not None and self.n == self.fail_at:
             self.log.append(('tempWrite-FAULT', self.n))
+            if FaultyStream.exc is not None:
+                raise FaultyStream.exc[0](*FaultyStream.exc[1])
             raise Boom('injected fault at temp write %d' % self.n)
         self.n += 1
         self.log.append(('tempWrite', len(b)))
@@ -43,6 +82,35 @@ class FaultyStream(io.BytesIO):
 
     def __exit__(self, *a):
         return False
+
+
+def bad_writers(lua, zoo):
+    out = []
+
+    def mk_output(text):
+        class W(lua.LuaEchoWriter):
+            def to_lines(self):
+                yield text
+        return W
+
+    def mk_raise(cls, args, late):
+        class W(lua.LuaEchoWriter):
+            def to_lines(self):
+                if late:
+                    yield b'x=1\n'
+                raise cls(*args)
+        return W
+    for nm, text in (('output-unterminated-string', b'msg = "hello\nprint(msg)\n'), ('output-unterminated-comment', b'x=1 --[[ c\n'),
+                     ('output-bad-char', b'x = 1 @@ `\n'), ('output-unparseable', b'a=b=c\n'), ('output-unclosed-block', b'if x then y=1\n'),
+                     ('output-stray-end', b'x=1 end\n'),
+                     ('output-missing-until', b'repeat x=1\n'), ('output-bad-assign', b'x = = 1\n'), ('output-call-missing-paren', b'f(1\n')):
+        out.append((nm, mk_output(text)))
+    for nm, cls, args in zoo:
+        if cls in (GeneratorExit, StopIteration):
+            continue      # inside a generator these end the iteration: not failures
+        out.append(('raises-' + nm, mk_raise(cls, args, False)))
+        out.append(('raises-late-' + nm, mk_raise(cls, args, True)))
+    return out
 
 
 def run_to_file(game, dest, fail_at=None, **kw):
@@ -66,7 +134,8 @@ def run_to_file(game, dest, fail_at=None, **kw):
     builtins.open = spy_open
     try:
         try:
-            gfile.to_file(game, dest, **kw)
+            with U.quiet():
+                gfile.to_file(game, dest, **kw)
             return 'ok', log, (streams[0].n if streams else 0)
         except BaseException as e:
             return 'err ' + type(e).__name__, log, (streams[0].n if streams else 0)
@@ -117,7 +186,9 @@ def run(ctx, res):
     res.rule = ('fault injected at the k-th write of the temporary stream for every k up to the number of writes of a successful run '
                 '(sampled in quick for .p8: every k < 12, then every 7th), plus internal failure sources (Lua writer raises on unparseable code, '
                 'section encoder raises on a short region, PNG: oversize code / bad label / version > 255) x {.p8, .p8.png} x '
-                '{destination exists, absent} x each Lua writer; distinct non-trivial = distinct (format, writer, failure source/point, dest state)')
+                '{destination exists, absent} x each Lua writer; the injected failure ranges over every exception class defined in pico8 (introspected) and the built-in ones, '
+                'at the first/middle/last write; Lua writers that raise each of these classes (immediately and after a first line) or return code '
+                'that does not lex / does not parse; distinct non-trivial = distinct (format, writer, failure source/point, dest state)')
     writers = [('echo', None, None), ('minify', lua.LuaMinifyTokenWriter, {}), ('fmt', lua.LuaFormatterWriter, {'indentwidth': 2}),
                ('astecho', lua.LuaASTEchoWriter, None)]
     code = b'-- t\nx=1\nfunction f(a)\n if (a) x+=1\n return x\nend\n'
@@ -141,6 +212,39 @@ def run(ctx, res):
                     check_run(res, '%s-%s' % (ext, wname), g, dest, before, k, True, **kw)
                     res.nontrivial.add((ext, wname, 'write', min(k, 3), before is not None))
             res.count('faults:%s:%s' % (ext, wname), len(ks))
+        # the class of the failure must not matter: every exception class picotool defines + built-ins, at the first, a middle and the last write
+        g = U.make_game(rng=rng, code=code, version=8)
+        dest = os.path.join(ctx.tmp, 'zoo%s' % ext)
+        status, n = check_run(res, '%s-zoo-ok' % ext, g, dest, None, None, False)
+        valid_existing = snapshot(dest)
+        for nm, cls, args in exception_zoo():
+            FaultyStream.exc = (cls, args)
+            try:
+                for k in sorted({0, 2, n // 2, n - 1} if not ctx.thorough() else set(range(n))):
+                    if k < 0 or k >= n:
+                        continue
+                    for before in ((valid_existing if ext == '.p8.png' else old), None):
+                        check_run(res, '%s-raise-%s' % (ext, nm), g, dest, before, k, True)
+                        res.nontrivial.add((ext, 'raise', nm, before is not None))
+            finally:
+                FaultyStream.exc = None
+            res.count('exception-classes' + ext)
+        # Lua writers that fail in every way a writer can: raise (any class), or return code that does not lex / does not parse
+        for nm, wcls in bad_writers(lua, exception_zoo()):
+            for before in ((valid_existing if ext == '.p8.png' else old), None):
+                fails = not (ext == '.p8.png' and nm.startswith('output-'))    # only the .p8 encoder re-parses what the writer produced
+                if nm.startswith('output-') and fails:
+                    # "does not re-parse" is picotool's own lexer+parser raising on the writer's output (its parser stops
+                    # silently at some stray tokens: that leniency is C08/C09's subject, not a failed write)
+                    try:
+                        lua.Lua.from_lines(list(wcls(tokens=[], root=None).to_lines()), version=8)
+                        fails = False
+                    except Exception:
+                        fails = True
+                    res.count('writer-output-reparse-fails:%s' % fails)
+                st, _ = check_run(res, '%s-writer-%s' % (ext, nm), g, dest, before, None, fails, lua_writer_cls=wcls, lua_writer_args=None)
+                res.nontrivial.add((ext, 'writer', nm, before is not None))
+                res.count('bad-writers' + ext)
         # internal failure sources
         bad = [('lua-writer-raises', dict(code=b'a=b=c\n'), {'lua_writer_cls': lua.LuaFormatterWriter, 'lua_writer_args': {'indentwidth': 2}}),
                ('short-sfx-region', dict(regions={'sfx': b'\x00' * 100}), {}),
